@@ -3,7 +3,6 @@ package rules
 import (
 	"fmt"
 	"go/ast"
-	"go/constant"
 	"go/token"
 	"go/types"
 	"math/bits"
@@ -85,7 +84,7 @@ func getSeedRoles(c *Ctx) *seedRoles {
 				encCallees[call.Fn] = true
 			}
 		}
-		vs := c.P.Views("wallet", ir.ExpandOpt{Key: "all"})
+		vs := seedViews(c)
 		best := 0
 		for _, f := range c.P.PkgFuncs("wallet") {
 			if f.Obj.Type().(*types.Signature).Recv() != nil || f == r.encoder {
@@ -98,6 +97,11 @@ func getSeedRoles(c *Ctx) *seedRoles {
 			shares := false
 			for _, call := range v.Calls(true) {
 				if encCallees[call.Fn] {
+					shares = true
+				}
+			}
+			for _, fn := range v.Inlined { // (the shared function may have been expanded into the view)
+				if encCallees[fn] && c.P.FuncOf(fn) != nil && c.P.FuncOf(fn).Obj.Type().(*types.Signature).Recv() == nil {
 					shares = true
 				}
 			}
@@ -119,7 +123,63 @@ func getSeedRoles(c *Ctx) *seedRoles {
 	if r.wmap == nil || r.encoder == nil || r.dec == nil {
 		ir.Fail("word map / encoder / decoder not found")
 	}
+	// both sides are read with their helpers expanded (a 128-bit shift register type, a word-index helper …)
+	if !r.encoder.View {
+		r.encoder = seedViews(c).Of(r.encoder)
+	}
+	if !r.dec.View {
+		r.dec = seedViews(c).Of(r.dec)
+	}
 	return r
+}
+
+// seedViews: package wallet with helpers expanded, except the checksum function (the one that hashes with SHA-256),
+// which encoder and decoder must share as a call.
+func seedViews(c *Ctx) *ir.ViewSet {
+	sum := map[*types.Func]bool{}
+	for _, f := range c.P.PkgFuncs("wallet") {
+		if f.Obj == nil {
+			continue
+		}
+		for _, call := range f.Calls(false) {
+			if call.Fn != nil && call.Fn.Pkg() != nil && call.Fn.Pkg().Path() == "crypto/sha256" {
+				sum[f.Obj] = true
+			}
+		}
+	}
+	return c.P.Views("wallet", ir.ExpandOpt{Key: "seed", Stop: func(fn *types.Func) bool { return sum[fn] }})
+}
+
+// foldInt evaluates an integer expression made of constants, +, - and * (operands of an expanded helper's
+// `64-n` are constants only after the parameter was replaced).
+func foldInt(f *ir.Func, e ast.Expr) (int64, bool) {
+	if v, ok := f.ConstInt(e); ok {
+		return v, true
+	}
+	switch t := ast.Unparen(e).(type) {
+	case *ast.BasicLit:
+		if v, err := strconv.ParseInt(t.Value, 0, 64); err == nil {
+			return v, true
+		}
+	case *ast.BinaryExpr:
+		x, ok1 := foldInt(f, t.X)
+		y, ok2 := foldInt(f, t.Y)
+		if ok1 && ok2 {
+			switch t.Op {
+			case token.ADD:
+				return x + y, true
+			case token.SUB:
+				return x - y, true
+			case token.MUL:
+				return x * y, true
+			}
+		}
+	case *ast.CallExpr:
+		if tv, ok := f.Info().Types[t.Fun]; ok && tv.IsType() && len(t.Args) == 1 {
+			return foldInt(f, t.Args[0])
+		}
+	}
+	return 0, false
 }
 
 func c20r1(c *Ctx) {
@@ -291,7 +351,7 @@ func c20r3(c *Ctx) {
 func c20r4(c *Ctx) {
 	r := getSeedRoles(c)
 	// helpers, local closures and library searches expanded
-	f := c.P.Views("wallet", ir.ExpandOpt{Key: "all"}).Of(r.dec)
+	f := r.dec
 	g := f.Graph()
 	c.VisitGraph(f)
 	// the words variable: result of strings.Fields
@@ -476,10 +536,8 @@ func shiftMaskConsts(f *ir.Func) map[string][]int64 {
 		default:
 			return
 		}
-		if tv, ok := f.Info().Types[be.Y]; ok && tv.Value != nil {
-			if v, exact := constant.Int64Val(constant.ToInt(tv.Value)); exact {
-				out[key] = append(out[key], v)
-			}
+		if v, ok := foldInt(f, be.Y); ok {
+			out[key] = append(out[key], v)
 		}
 	})
 	for k := range out {
